@@ -40,21 +40,31 @@ namespace {
         int v;
         uint32_t magic;
         Tracked() : v( -7 ), magic( kMagic ) { ++live; }
-        Tracked( int x ) : v( x ), magic( kMagic ) { ++live; }
-        Tracked( Tracked const& o ) : v( o.v ), magic( kMagic )
+        // copying is client code that runs inside the queue operation: make it a scheduling point
+        Tracked( int x ) : v( x ), magic( kMagic )
         {
+            cdsverif::point();
+            ++live;
+        }
+        Tracked( Tracked const& o ) : magic( kMagic )
+        {
+            cdsverif::point();
+            v = o.v;
             if ( o.magic != kMagic )
                 ++bad;
             ++live;
         }
-        Tracked( Tracked&& o ) noexcept : v( o.v ), magic( kMagic )
+        Tracked( Tracked&& o ) noexcept : magic( kMagic )
         {
+            cdsverif::point();
+            v = o.v;
             if ( o.magic != kMagic )
                 ++bad;
             ++live;
         }
         Tracked& operator=( Tracked const& o )
         {
+            cdsverif::point();
             if ( o.magic != kMagic || magic != kMagic )
                 ++bad;
             v = o.v;
@@ -62,6 +72,7 @@ namespace {
         }
         Tracked& operator=( Tracked&& o ) noexcept
         {
+            cdsverif::point();
             if ( o.magic != kMagic || magic != kMagic )
                 ++bad;
             v = o.v;
@@ -103,7 +114,10 @@ namespace {
             case 2:
                 return q.emplace( v );
             default:
-                return q.enqueue_with( [v]( V& dest ) { new ( &dest ) V( v ); } );
+                return q.enqueue_with( [v]( V& dest ) {
+                    cdsverif::point();      // the copy functor is client code
+                    new ( &dest ) V( v );
+                } );
             }
         }
         int deq( int how )
@@ -116,7 +130,10 @@ namespace {
                 return q.pop( x ) ? as_int( x ) : -1;
             default: {
                 int r = -1;
-                return q.dequeue_with( [&r]( V& src ) { r = as_int( src ); } ) ? r : -1;
+                return q.dequeue_with( [&r]( V& src ) {
+                    cdsverif::point();
+                    r = as_int( src );
+                } ) ? r : -1;
             }
             }
         }
